@@ -235,7 +235,9 @@ func computeLocks(fn *ssa.Function, entry lockset) *funcLocks {
 var mutMemo = map[*ssa.Function]int{}
 
 // modOnly restricts receiver-mutation summaries to functions of the analysed module.
-var modOnly func(*ssa.Function) bool
+var modOnly = func(f *ssa.Function) bool {
+	return theProg != nil && f.Pkg != nil && theProg.IsModPkg(f.Pkg.Pkg) && !theProg.IsGenerated(f)
+}
 
 // ---- monitors ----
 
@@ -473,7 +475,6 @@ func (c *Ctx) lockAnalysis() *lockAnalysis {
 func (c *Ctx) lockAnalysis0() *lockAnalysis {
 	la := &lockAnalysis{c: c, monitors: c.monitors(), locks: map[*ssa.Function]*funcLocks{}}
 	mutMemo = map[*ssa.Function]int{}
-	modOnly = func(f *ssa.Function) bool { return f.Pkg != nil && c.P.IsModPkg(f.Pkg.Pkg) && !c.P.IsGenerated(f) }
 	lockWrappers = map[*ssa.Function]map[string]string{}
 	lockReleasers = map[*ssa.Function]map[string]bool{}
 	for round := 0; round < 2; round++ {
